@@ -215,6 +215,16 @@ impl Ctx {
                 .map(|x| x.1)
                 .unwrap_or(Uuid::nil()),
             "snap" => self.snapshot_version(num(1) as u32),
+            "stored" => {
+                // the latest version id as the storage has it right now
+                let cu = self.client(num(1) as u32);
+                let server = self.server.as_ref().unwrap();
+                let r = catch_unwind(AssertUnwindSafe(|| -> Option<Uuid> {
+                    let mut txn = server.txn(cu).ok()?;
+                    Some(txn.get_client().ok()??.latest_version_id)
+                }));
+                r.ok().flatten().unwrap_or(Uuid::nil())
+            }
             "client" => self.client(num(1) as u32),
             v if v.starts_with('$') => {
                 // a named arbitrary id: the same uuid every time the name is used in this case
@@ -687,6 +697,30 @@ impl Ctx {
             ["reopen"] => self.reopen(),
             ["savestate", path] => self.save_state(path),
             ["loadstate", path] => self.load_state(path),
+            ["usedir", path] => {
+                // switch to an existing data directory (a recovered crash image)
+                self.keep_dir = Some(std::path::PathBuf::from(path));
+                self.server = None;
+                self.store = None;
+                let r = catch_unwind(AssertUnwindSafe(|| self.open(false)));
+                self.emit("usedir".into(), if r.is_ok() { "opened".into() } else { "OPEN-FAILED".into() });
+                return;
+            }
+            ["integrity"] => {
+                let path = self.data_dir().join("taskchampion-sync-server.sqlite3");
+                let line = match rusqlite::Connection::open(&path).and_then(|c| c.query_row("PRAGMA integrity_check", [], |r| r.get::<_, String>(0))) {
+                    Ok(s) => format!("integrity {}", s.replace(' ', "_")),
+                    Err(e) => format!("integrity ERROR:{}", e.to_string().replace(' ', "_")),
+                };
+                self.emit("integrity".into(), line);
+                return;
+            }
+            ["ack", n] => {
+                // a marker visible in a system-call trace: everything before it was acknowledged
+                use std::io::Write;
+                let _ = std::io::stderr().write_all(format!("ACK {n}\n").as_bytes());
+                return;
+            }
             ["hold"] => {
                 // a second, idle connection: while it is open no close checkpoints the WAL
                 let c = rusqlite::Connection::open(self.data_dir().join("taskchampion-sync-server.sqlite3")).expect("hold");
